@@ -486,6 +486,8 @@ void ClipperOffset::DoGroupOffset(Group& group)
 		Path64::size_type pathLen = path_in_it->size();
 		path_out.clear();
 
+		if (pathLen == 0) continue; // nothing to offset (and path[0] must not be read)
+
 		if (pathLen == 1) // single point
 		{
 			if (deltaCallback64_)
